@@ -65,21 +65,34 @@ theorem hand_ite {c : Prop} {_ : Decidable c} (n : Nat) (x y : St) (name : Nat) 
     regSetLoop n (if c then x else y) name val = if c then regSetLoop n x name val else regSetLoop n y name val := by
   split <;> rfl
 
-macro "fin" ih:ident : tactic =>
+/-- `x & v & v = x & v` (`if (ptrans & val)` and `if (ptrans)` are the same test) -/
+theorem and_and_self' (x v : Reg) : x &&& v &&& v = x &&& v := by
+  ext i hi; simp
+
+/-- in a register file of SCPI_REG_COUNT entries the range test of SCPI_RegGet is redundant: a direct read
+`context->registers[i]` and `SCPI_RegGet(context, i)` agree wherever the direct read is defined (and, in the model, also
+outside: both yield 0) -/
+theorem getD_guard (l : List Reg) (i : Nat) (h : l.length = 10) : (if i < 10 then l[i]?.getD 0#16 else 0#16) = l[i]?.getD 0#16 := by
+  split
+  · rfl
+  · rw [List.getElem?_eq_none (by omega)]; rfl
+
+macro "fin" ih:ident hlen:ident : tactic =>
   `(tactic| ((try simp only [toSt_ite, loop_ite, hand_ite])
-             (try simp [Regs.get, put])
+             (try simp (disch := simp only [List.length_set, $hlen:ident]) [Regs.get, put, and_and_self', getD_guard])
              repeat' split
-             all_goals (try simp only [$ih:ident])
+             all_goals (try simp (disch := simp only [List.length_set, $hlen:ident]) only [$ih:ident])
              all_goals (try simp [toSt])))
 
 theorem loop_refines (b : St) : ∀ (fuel : Nat) (regs : List Reg) (log : List (Nat × Reg)) (ret : Int) (oof : Bool) (name : Nat) (val : Reg),
+    regs.length = 10 →
     toSt (SCPI_RegSet_loop1 fuel ⟨regs, true, true, log, ret, oof⟩ name val) b =
       regSetLoop fuel ⟨regs, b.qn, b.cap, srqOf log, b.errcb⟩ name val := by
   intro fuel
   induction fuel with
   | zero => intros; simp [regsC, regSetLoop, toSt]
   | succ n ih =>
-    intro regs log ret oof name val
+    intro regs log ret oof name val hlen
     simp only [regsC, regSetLoop, det_type, det_group, grp_eq]
     have hcls := cls_le name
     generalize detailOf name = d at hcls
@@ -91,13 +104,13 @@ theorem loop_refines (b : St) : ∀ (fuel : Nat) (regs : List Reg) (log : List (
     by_cases h0 : regs.getD name 0 = val
     · prune [h0]; simp [toSt]
     by_cases hA : cls = 0 ∨ cls = 1
-    · prune [h0, hA]; fin ih
+    · prune [h0, hA]; fin ih hlen
     by_cases hB : cls = 2
-    · prune [h0, hA, hB]; fin ih
+    · prune [h0, hA, hB]; fin ih hlen
     by_cases hC : cls = 4
-    · prune [h0, hA, hB, hC]; fin ih
+    · prune [h0, hA, hB, hC]; fin ih hlen
     by_cases hD : cls = 3
-    · prune [h0, hA, hB, hC, hD]; fin ih
+    · prune [h0, hA, hB, hC, hD]; fin ih hlen
     · exfalso; omega
 
 
@@ -249,39 +262,60 @@ theorem fuel_ok (name : Nat) : rank name < SCPI_RegSet_loop1_fuel ∧ rank name 
   have : 3 ≤ SCPI_RegSet_loop1_fuel := by decide
   omega
 
-theorem regSet_refines (c : CCtx) (b : St) (name : Nat) (val : Reg) (hcb : CB c) :
+theorem regSet_unfold (c : CCtx) (name : Nat) (val : Reg) :
+    SCPI_RegSet c name val = if name < 10 then SCPI_RegSet_loop1 SCPI_RegSet_loop1_fuel c name val else c := by
+  by_cases hn : name < 10
+  · have hn' : ¬ 10 ≤ name := by omega
+    simp [SCPI_RegSet, hn, hn']
+  · have hn' : 10 ≤ name := by omega
+    simp [SCPI_RegSet, hn, hn']
+
+theorem regSet_refines (c : CCtx) (b : St) (name : Nat) (val : Reg) (hcb : CB c) (hlen : c.registers.length = regCount) :
     toSt (SCPI_RegSet c name val) b = regSet (toSt c b) name val := by
   obtain ⟨regs, hi, hc, log, ret, oof⟩ := c
   obtain ⟨h1, h2⟩ := hcb
-  simp only at h1 h2
+  simp only at h1 h2 hlen
   subst h1 h2
-  simp only [SCPI_RegSet, regSet, toSt_ite, decide_eq_true_eq, regCount_eq', ge_iff_le]
-  split
-  · rfl
-  · rw [loop_refines, hand_fuel _ 8 _ _ _ (fuel_ok name).1 (fuel_ok name).2]; rfl
+  rw [regSet_unfold]
+  simp only [regSet, toSt_ite, regCount_eq', ge_iff_le]
+  by_cases hn : name < 10
+  · have hn' : ¬ 10 ≤ name := by omega
+    simp only [hn, hn', ↓reduceIte]
+    rw [loop_refines _ _ _ _ _ _ _ _ hlen, hand_fuel _ 8 _ _ _ (fuel_ok name).1 (fuel_ok name).2]; rfl
+  · have hn' : 10 ≤ name := by omega
+    simp only [hn, hn', ↓reduceIte]
 
 theorem regSet_oof (c : CCtx) (name : Nat) (val : Reg) : (SCPI_RegSet c name val).oof = c.oof := by
-  simp only [SCPI_RegSet, oof_ite]
+  rw [regSet_unfold]
   split
-  · rfl
   · exact loop_oof _ _ _ _ (fuel_ok name).1
+  · rfl
 
 theorem regSet_flags (c : CCtx) (name : Nat) (val : Reg) : flags (SCPI_RegSet c name val) = flags c := by
-  simp only [SCPI_RegSet, flags_ite, loop_flags]
-  split <;> rfl
+  rw [regSet_unfold]
+  split
+  · exact loop_flags _ _ _ _
+  · rfl
+
+theorem regSet_length (c : CCtx) (b : St) (name : Nat) (val : Reg) (hcb : CB c) (hlen : c.registers.length = regCount) :
+    (SCPI_RegSet c name val).registers.length = regCount := by
+  have h := congrArg (fun s => s.regs.length) (regSet_refines c b name val hcb hlen)
+  have h2 : (regSet (toSt c b) name val).regs.length = (toSt c b).regs.length :=
+    (Lemmas.Regs.regSet_spec (toSt c b) name val hlen).1.1
+  exact (h.trans h2).trans hlen
 
 theorem regSet_cb (c : CCtx) (name : Nat) (val : Reg) (h : CB c) : CB (SCPI_RegSet c name val) := by
   have := regSet_flags c name val
   simp only [flags, Prod.mk.injEq] at this
   exact ⟨this.1.trans h.1, this.2.1.trans h.2⟩
 
-theorem regSetBits_refines (c : CCtx) (b : St) (name : Nat) (bits : Reg) (hcb : CB c) :
+theorem regSetBits_refines (c : CCtx) (b : St) (name : Nat) (bits : Reg) (hcb : CB c) (hlen : c.registers.length = regCount) :
     toSt (SCPI_RegSetBits c name bits) b = regSetBits (toSt c b) name bits := by
-  simp only [SCPI_RegSetBits, regSetBits, regSet_refines _ _ _ _ hcb, regGet_refines c b]
+  simp only [SCPI_RegSetBits, regSetBits, regSet_refines _ _ _ _ hcb hlen, regGet_refines c b]
 
-theorem regClearBits_refines (c : CCtx) (b : St) (name : Nat) (bits : Reg) (hcb : CB c) :
+theorem regClearBits_refines (c : CCtx) (b : St) (name : Nat) (bits : Reg) (hcb : CB c) (hlen : c.registers.length = regCount) :
     toSt (SCPI_RegClearBits c name bits) b = regClearBits (toSt c b) name bits := by
-  simp only [SCPI_RegClearBits, regClearBits, regSet_refines _ _ _ _ hcb, regGet_refines c b]
+  simp only [SCPI_RegClearBits, regClearBits, regSet_refines _ _ _ _ hcb hlen, regGet_refines c b]
 
 /-- the context that stands for a state of the hand model (callback installed, nothing out of fuel) -/
 def ofSt (s : St) : CCtx :=
